@@ -18,6 +18,7 @@ RULE += ' 12% of the proportional commissions are negative (rebates).'
 RULE += ' Portfolio-level histories: in a fifth of the cases a second asset mirrors every fill and mark of the first (bit-identical per-position figures).'
 RULE += " Kept handles and emptied/kept report copies as in C01 (also in the portfolio-level ladders: Position objects obtained earlier must agree with the portfolio's on quantity, price and total P&L)."
 RULE += ' Odd-case / colliding asset symbols in a fifth of the cases.'
+RULE += ' Every third step of the direct Position histories rebuilds the position through the public constructor from its own quantities, averages and commissions; the copy must report the same P&L figures.'
 ASSUMPTIONS = [
     'tolerance 1e-9 x (sum |price x quantity| + |market value| + commissions + 1); measured error ~1e-14',
     'the statement is algebraic over the reals; monitoring shows it on every path class with many real draws, not for all reals',
